@@ -52,6 +52,15 @@ def _scopes_in(fn):
         stack.extend(ast.iter_child_nodes(n))
 
 
+POSONLY = False
+
+
+def _posonly(fn):
+    if isinstance(fn, ast.Lambda) or not POSONLY:
+        return set()
+    return {a.arg for a in fn.args.posonlyargs if a.arg not in ('self', 'cls', '_')}
+
+
 def _locals_of(fn):
     stored, declared = set(), set()
     for n in _own_nodes(fn):
@@ -64,7 +73,7 @@ def _locals_of(fn):
         elif isinstance(n, (ast.Import, ast.ImportFrom)):
             for al in n.names:
                 declared.add((al.asname or al.name).split('.')[0])
-    return {x for x in stored - declared - _params(fn)
+    return {x for x in (stored - declared - _params(fn)) | _posonly(fn)
             if not (x.startswith('__') and x.endswith('__')) and x != '_'}
 
 
@@ -75,6 +84,10 @@ def _apply(fn, mapping):
         for n in _own_nodes(fn):
             if isinstance(n, ast.Name) and n.id in mapping:
                 n.id = mapping[n.id]
+        if not isinstance(fn, (ast.Lambda, ast.ClassDef)):
+            for a in fn.args.posonlyargs:
+                if a.arg in mapping and a.arg in _posonly(fn):
+                    a.arg = mapping[a.arg]
     for sub in _scopes_in(fn):
         if isinstance(sub, ast.ClassDef):
             # class body: names stored there are attributes, reads of enclosing locals are renamed
@@ -82,7 +95,7 @@ def _apply(fn, mapping):
             inner = {k: v for k, v in mapping.items() if k not in stored}
             _apply(sub, inner)
             continue
-        shadow = _params(sub) | (_locals_of(sub) if not isinstance(sub, ast.Lambda) else set())
+        shadow = (_params(sub) - _posonly(sub)) | (_locals_of(sub) if not isinstance(sub, ast.Lambda) else set())
         inner = {k: v for k, v in mapping.items() if k not in shadow}
         if not isinstance(sub, ast.Lambda):
             taken = set(inner.values())
@@ -94,9 +107,10 @@ def _apply(fn, mapping):
 SUFFIX = '_rn'
 
 
-def rename_module(text, suffix='_rn'):
-    global SUFFIX
+def rename_module(text, suffix='_rn', posonly=False):
+    global SUFFIX, POSONLY
     SUFFIX = suffix
+    POSONLY = posonly
     tree = ast.parse(text)
     count = 0
     for node in ast.walk(tree):
